@@ -387,6 +387,7 @@ func (h Held) String() string {
 // LockFacts is the result of the intraprocedural must-hold analysis of one function.
 type LockFacts struct {
 	Fn  *ssa.Function
+	may map[*ssa.BasicBlock]Held
 	in  map[*ssa.BasicBlock]Held
 	ops map[ssa.Instruction]LockOp
 	pr  *Program
@@ -399,7 +400,7 @@ func (pr *Program) Locks(fn *ssa.Function) *LockFacts {
 	if lf, ok := lockFactsCache[fn]; ok {
 		return lf
 	}
-	lf := &LockFacts{Fn: fn, in: map[*ssa.BasicBlock]Held{}, ops: map[ssa.Instruction]LockOp{}, pr: pr}
+	lf := &LockFacts{Fn: fn, in: map[*ssa.BasicBlock]Held{}, may: map[*ssa.BasicBlock]Held{}, ops: map[ssa.Instruction]LockOp{}, pr: pr}
 	lockFactsCache[fn] = lf
 	for _, b := range fn.Blocks {
 		for _, in := range b.Instrs {
@@ -434,7 +435,48 @@ func (pr *Program) Locks(fn *ssa.Function) *LockFacts {
 			}
 		}
 	}
+	// forward may analysis (union at merges): a lock is may-held if it is held on SOME path
+	lf.may[fn.Blocks[0]] = Held{}
+	work = []*ssa.BasicBlock{fn.Blocks[0]}
+	for len(work) > 0 {
+		b := work[0]
+		work = work[1:]
+		out := lf.transferBlock(b, lf.may[b].clone())
+		for _, s := range b.Succs {
+			old, seen := lf.may[s]
+			nw := Held{}
+			for k, v := range old {
+				nw[k] = v
+			}
+			for k, v := range out {
+				if w, ok := nw[k]; !ok || v > w {
+					nw[k] = v
+				}
+			}
+			if !seen || !nw.equal(old) {
+				lf.may[s] = nw
+				work = append(work, s)
+			}
+		}
+	}
 	return lf
+}
+
+// MayHeldAt returns the locks held on at least one path immediately before instruction in.
+func (lf *LockFacts) MayHeldAt(in ssa.Instruction) Held {
+	b := in.Block()
+	h0, ok := lf.may[b]
+	if !ok {
+		return Held{}
+	}
+	h := h0.clone()
+	for _, x := range b.Instrs {
+		if x == in {
+			break
+		}
+		lf.transfer(x, h)
+	}
+	return h
 }
 
 func (lf *LockFacts) transferBlock(b *ssa.BasicBlock, h Held) Held {
